@@ -248,8 +248,8 @@ func encodePacket(w io.Writer, u *[]byte, b []byte, s string) (int, error) {
 		if len(e[i]) == 0 {
 			continue
 		}
-		if len(e[i]) > 256 {
-			e[i] = e[i][:250]
+		if len(e[i]) > 63 {
+			e[i] = e[i][:63]
 		}
 		(*u)[0] = byte(len(e[i]))
 		var (
